@@ -14,7 +14,8 @@ Proof. exact RestartFacts.restart_keeps_term_vote. Qed.
 Print Assumptions restart_keeps_term_vote.
 
 (* every entry it had acknowledged as stored (flushed) is still there, unless the log was behind
-   an installed snapshot and had to be reset to it.
+   an installed snapshot - or, after a crash inside Log.Reset, no longer connected to it
+   ([st_logprev s <= st_snapidx s] fails) - and had to be reset to it.
    REPAIRED STATEMENT: the side condition is on what SURVIVED the crash, [st_snapidx s <= keep]
    (implied by st_snapidx s <= st_flushed s, since restart requires st_flushed s <= keep); the
    first draft had [st_snapidx s <= log_lastindex s], which is refuted by
@@ -22,6 +23,7 @@ Print Assumptions restart_keeps_term_vote.
    snapshot at 3, keep 1: the log is reset to the snapshot and the covered entry 1 is dropped). *)
 Theorem restart_keeps_flushed_entries :
   forall s keep s' i, restart s keep = Done s' -> i <= st_flushed s -> st_snapidx s <= keep ->
+    st_logprev s <= st_snapidx s ->
     st_flushed s <= log_lastindex s -> log_get s' i = log_get s i.
 Proof. exact RestartFacts.restart_keeps_flushed_entries. Qed.
 Print Assumptions restart_keeps_flushed_entries.
@@ -32,10 +34,11 @@ Theorem restart_keeps_flushed_entries_original_refuted :
 Proof. exact RestartFacts.restart_keeps_flushed_entries_original_refuted. Qed.
 Print Assumptions restart_keeps_flushed_entries_original_refuted.
 
-(* the log is contiguous with the latest snapshot after every restart, whatever the crash left:
+(* the log is contiguous with the latest snapshot after every restart, whatever the crash left -
+   a log that ends before the snapshot, a log that starts after it, any log at all:
    first index - 1 <= snapshot index <= last index *)
 Theorem restart_log_contiguous_with_snapshot :
-  forall s keep s', restart s keep = Done s' -> st_logprev s <= st_snapidx s -> RestartFacts.log_indexed s ->
+  forall s keep s', restart s keep = Done s' -> RestartFacts.log_indexed s ->
     st_logprev s' <= st_snapidx s' /\ st_snapidx s' <= st_lastidx s' /\ st_lastidx s' = N.max (log_lastindex s') (st_snapidx s').
 Proof. exact RestartFacts.restart_log_contiguous_with_snapshot. Qed.
 Print Assumptions restart_log_contiguous_with_snapshot.
@@ -56,6 +59,15 @@ Theorem install_crash_before_fix_refuted :
     st_logprev s <= st_snapidx s /\ RestartFacts.restart_before_fix cs keep = Done s' /\ st_lastidx s' < st_snapidx s'.
 Proof. exact RestartFacts.install_crash_before_fix_refuted. Qed.
 Print Assumptions install_crash_before_fix_refuted.
+
+(* a crash inside Log.Reset (which removes the oldest segment files first) leaves a log that starts
+   AFTER the published snapshot; before the repair recorded as D19 in known_findings.json the restart
+   kept that log: first index - 1 > snapshot index *)
+Theorem reset_crash_before_fix2_refuted :
+  exists cs keep s', RestartFacts.log_indexed cs /\ st_snapidx cs < st_logprev cs /\
+    RestartFacts.restart_before_fix2 cs keep = Done s' /\ st_snapidx s' < st_logprev s'.
+Proof. exact RestartFacts.reset_crash_before_fix2_refuted. Qed.
+Print Assumptions reset_crash_before_fix2_refuted.
 
 (* a restarted node starts as a follower that knows no leader, with the configuration of the newest
    configuration entry above its snapshot (else the snapshot's) *)
